@@ -6,7 +6,7 @@ import ast
 from ..cfg import CFG
 from ..core import AnalysisError, body_of, is_self_attr, short, unparse, walk_shallow
 from ..simrules import SIM, SimCtx, find_run_loop
-from . import c08
+from . import c01, c08
 
 EXPLANATION = (
     "Effect analysis excluding the known sources of run-to-run variation from the whole package (a superset of what is "
@@ -38,6 +38,9 @@ def run(ctx):
     c08.r81(ctx)
     c08.r82(ctx)
     r73_ids_ordinal(ctx)
+    # ids must also increase strictly in creation order for the whole process (shared rule with C01): a counter that can be
+    # reset makes the tie-break between equal-time, equal-priority events depend on earlier activity
+    c01.r14_counter(ctx)
     r74_dict_iteration(ctx)
     r75_no_loop_carried_state(ctx)
 
